@@ -18,6 +18,7 @@ import NgVerif.Model.Slices
 import NgVerif.Model.Http
 import NgVerif.Model.Convert
 import NgVerif.Model.Fault
+import NgVerif.Model.Pipeline
 /-
   ngdriver: line protocol. One request per line on stdin (space-separated tokens),
   one reply per line on stdout. Unknown / malformed requests answer `bad-request`.
@@ -502,6 +503,19 @@ def handle (toks : List String) : String :=
         match Shard.implFetch m p (Fault.partialShard m b j) id with
         | none => "none" | some x => bytesToHex x)
     | _, _, _, _, _ => "bad-request"
+  | ["pipeline-info", n, ty, enc, fty, fdt, fenc, fblk] =>
+    -- info of the all-in-one command: "-" = option / field absent
+    let opt (t : String) : Option String := if t == "-" then none else some t
+    match parseNat n, (if fblk == "-" then some none else ((parseList parseNat fblk) >>= triple).map some) with
+    | some n, some blk =>
+      let full : Pipeline.InfoM := ⟨opt fty, fdt, 1, [⟨0, opt fenc, blk⟩]⟩
+      let i := Pipeline.allInOneInfo n full (opt ty) (opt enc)
+      let sc := i.scales.map fun s =>
+        s!"{s.encoding.getD "-"}:{match s.csegBlock with | some (a, b, c) => s!"{a}.{b}.{c}" | none => "-"}"
+      s!"{i.type.getD "-"} {i.dataType} {" ".intercalate sc}"
+    | _, _ => "bad-request"
+  | ["status", steps] =>
+    toString (Pipeline.status (steps.toList.map fun c => if c == '1' then (Except.ok () : Except Unit Unit) else .error ()))
   | ["http-dispatch", opt, info] =>
     let i : Option Bool := if info == "none" then none else some (info == "1")
     if Http.dispatchSharded (opt == "1") i then "sharded" else "plain"
